@@ -2406,7 +2406,10 @@ impl Connection {
                         }
                     }
 
-                    if !self.state.is_closed() {
+                    // Retry and Version Negotiation packets are not protected by any key of this
+                    // connection: they are no evidence of a live peer and must not count as
+                    // authenticated (a valid Retry is counted once its integrity tag is checked)
+                    if !self.state.is_closed() && packet.header.is_protected() {
                         let spin = match packet.header {
                             Header::Short { spin, .. } => spin,
                             _ => false,
@@ -2536,7 +2539,7 @@ impl Connection {
                     return Ok(());
                 }
 
-                if self.total_authed_packets > 1
+                if self.total_authed_packets > 0
                             || packet.payload.len() <= 16 // token + 16 byte tag
                             || !self.crypto.is_valid_retry(
                                 self.rem_cids.active(),
@@ -2557,6 +2560,7 @@ impl Connection {
 
                 trace!("retrying with CID {}", rem_cid);
                 let client_hello = state.client_hello.take().unwrap();
+                self.on_packet_authenticated(now, SpaceId::Initial, None, None, false, false);
                 self.retry_src_cid = Some(rem_cid);
                 self.rem_cids.update_initial_cid(rem_cid);
                 self.rem_handshake_cid = rem_cid;
@@ -2727,7 +2731,7 @@ impl Connection {
                 Ok(())
             }
             Header::VersionNegotiate { .. } => {
-                if self.total_authed_packets > 1 {
+                if self.total_authed_packets > 0 {
                     return Ok(());
                 }
                 let supported = packet
